@@ -18,8 +18,8 @@ from pathlib import Path
 VERIF = Path(__file__).resolve().parent.parent
 LEAN_DIR = VERIF / "lean"
 REPO = Path(os.environ.get("RPFT_REPO", "/repo"))
-EVIDENCE_DIR = VERIF / "evidence"
-REPLAY_DIR = VERIF / "replays"
+EVIDENCE_DIR = Path(os.environ.get("VERIF_EVIDENCE_DIR") or (VERIF / "evidence"))   # scratch runs (seeded copies) must not clobber committed evidence
+REPLAY_DIR = Path(os.environ.get("VERIF_REPLAY_DIR") or (VERIF / "replays"))
 KNOWN_FINDINGS = VERIF / "known_findings.jsonl"
 DRIVER_BIN = LEAN_DIR / ".lake" / "build" / "bin" / "rpft_driver"
 
